@@ -329,7 +329,103 @@ def replay_once(ctx, recs):
 
 
 # ---------------------------------------------------------------------------------------------
-# Part 3: path normalisation
+# Part 3: a command-line file that is first reached through an #include
+B_DECLS = "__begin_publish\nextern int own_b;\nint own_bf(int x);\n__end_publish\n"
+B_CLASS = "class BCls {\n__published:\n  BCls();\n  int bm();\n};\n"
+B_BODY = {"pragma": "#pragma once\n" + B_CLASS + B_DECLS,
+          "guard": "#ifndef B_H_GUARD\n#define B_H_GUARD\n" + B_CLASS + B_DECLS + "#endif\n",
+          # an unprotected file is read twice: only declarations that may be repeated
+          "none": B_DECLS}
+INC_TEXT = {"incPlain": "b.h", "incDot": "./b.h", "incDotDot": "sub/../b.h",
+            "Iplain": "b.h", "Isymlink": "b.h", "Idotdot": "b.h"}
+
+
+def own_case(rec, root):
+    """root/hdr/a.h includes B; B lives next to A (inc* reaches) or in root/lib (reached through -I);
+    root/lnkB -> B's directory, root/lnkI -> root/lib, root/work = a working directory without headers.
+    Returns (cwd, argv)."""
+    via_i = rec["reach"].startswith("I")
+    bdir = "lib" if via_i else "hdr"
+    for d in ("hdr/sub", "lib/sub", "work"):
+        os.makedirs(os.path.join(root, d), exist_ok=True)
+    os.symlink(bdir, os.path.join(root, "lnkB"))
+    os.symlink("lib", os.path.join(root, "lnkI"))
+    open(os.path.join(root, bdir, "b.h"), "w").write(B_BODY[rec["guard"]])
+    open(os.path.join(root, "hdr", "a.h"), "w").write(
+        '#include "%s"\n__begin_publish\nextern int own_a;\n__end_publish\n' % INC_TEXT[rec["reach"]])
+    cwd = os.path.join(root, bdir if rec["cwdHas"] else "work")
+    brel = "." if rec["cwdHas"] else "../" + bdir
+    a = "a.h" if (rec["cwdHas"] and not via_i) else "../hdr/a.h"
+    b = {"plain": "b.h" if brel == "." else brel + "/b.h",
+         "symlink": "../lnkB/b.h",
+         "dots": "./" + brel + "/sub/../b.h"}[rec["cmdSpell"]]
+    argv = ["-module", "m", "-library", "l", "-od", os.path.join(root, "o.in")]
+    if via_i:
+        argv += ["-I", {"Iplain": "../lib", "Isymlink": "../lnkI", "Idotdot": "../hdr/../lib"}[rec["reach"]]]
+    argv += [a, b] if rec["order"] == "AB" else [b, a]
+    return cwd, argv
+
+
+def replay_own(ctx, recs):
+    base = os.path.realpath(os.path.join(ctx.tmp, "own"))
+    os.makedirs(base, exist_ok=True)
+    reader = os.path.join(os.path.dirname(os.path.dirname(os.path.dirname(os.path.abspath(__file__)))),
+                          "harness", "c17_dbnames.py")
+    libso = os.path.join(build.libdir(), "libinterrogatedb.so")
+
+    def one(irec):
+        cid, rec = irec
+        root = os.path.join(base, "o%03d" % cid)
+        os.makedirs(root)
+        cwd, argv = own_case(rec, root)
+        tr = os.path.join(root, "trace.ndjson")
+        r = run.run_tool("interrogate", argv, cwd=cwd, trace=tr, timeout=60)
+        got = None
+        if r.rc == 0 and os.path.exists(os.path.join(root, "o.in")):
+            p = subprocess.run(["python3", reader, libso, os.path.join(root, "o.in")], stdout=subprocess.PIPE,
+                               stderr=subprocess.PIPE, text=True, timeout=60)
+            try:
+                got = json.loads(p.stdout)
+            except ValueError:
+                got = dict(error=True, stderr=p.stderr[-300:])
+        hook = None
+        if os.path.exists(tr):
+            for line in open(tr):
+                try:
+                    e = json.loads(line)
+                except ValueError:
+                    continue
+                if e.get("e") == "Include" and e.get("name") == INC_TEXT[rec["reach"]]:
+                    hook = SRC.get(e["src"], "?")
+                    break
+        return rec, cwd, argv, r.rc, got, hook, r.stderr[-600:]
+
+    n, events = 0, []
+    for rec, cwd, argv, rc, got, hook, err in run.pmap(one, list(enumerate(recs))):
+        n += 1
+        protected = rec["guard"] != "none"
+        want = dict(own_b=rec["entries"], own_bf=1, own_a=1, BCls=1 if protected else 0)
+        case = dict(case=rec, cwd=cwd, argv=argv, expected=want, database=got, stderr=err)
+        if rc != 0 or got is None or got.get("error"):
+            ctx.violation("interrogate exit %s / database unreadable on an ownership case %s" % (rc, argv), case)
+            continue
+        have = dict(own_b=got["globals"].count("own_b"), own_bf=got["functions"].count("own_bf"),
+                    own_a=got["globals"].count("own_a"), BCls=got["types"].count("BCls"))
+        if have != want:
+            ctx.violation("ownership: b.h named on the command line (%s spelling, %s, cwd %s the headers, %s) and first "
+                          "reached by a.h's #include (%s): the database should export %s, it has %s" % (
+                              rec["cmdSpell"], "after a.h" if rec["order"] == "AB" else "before a.h",
+                              "contains" if rec["cwdHas"] else "does not contain", rec["guard"], rec["reach"], want, have), case)
+        if hook is not None:
+            events.append([dict(e="OwnCase", cmdSpell=rec["cmdSpell"], reach=rec["reach"], order=rec["order"],
+                                cwdHas=int(rec["cwdHas"]), guard=rec["guard"]), dict(e="OwnInc", src=hook), []])
+    if len(events) < n:
+        raise MachineryError("ownership cases: %d runs but only %d Include events for b.h" % (n, len(events)))
+    return n, events
+
+
+# ---------------------------------------------------------------------------------------------
+# Part 4: path normalisation
 def replay_paths(ctx, recs):
     ld = build.libdir()
     tool = harness.ensure("path_tool", ["path_tool.cxx", os.path.join(ld, "libdtoolutil.a"),
@@ -484,7 +580,7 @@ def run_check(ctx):
     vac = tlc.vacuous_actions(res)
     if vac:
         raise MachineryError("IncludeSearch: actions never taken: %s" % vac)
-    lookups, onces, seen = [], [], set()
+    lookups, onces, owns, seen = [], [], [], set()
     for r in tlc.read_dump(dump):
         key = json.dumps(r, sort_keys=True)
         if key in seen:
@@ -493,10 +589,14 @@ def run_check(ctx):
         if r["k"] == "lookup":
             r["present"] = sorted(r["present"], key=DIRS.index)
             lookups.append(r)
+        elif r["k"] == "own":
+            owns.append(r)
         else:
             onces.append(r)
-    if len(lookups) < 90000 or len(onces) < 300:
-        raise MachineryError("IncludeSearch dump too small: %d lookup cases, %d once-only histories" % (len(lookups), len(onces)))
+    if len(lookups) < 90000 or len(onces) < 300 or len(owns) != 216:
+        raise MachineryError("IncludeSearch dump too small: %d lookup cases, %d once-only histories, %d ownership cases"
+                             % (len(lookups), len(onces), len(owns)))
+    owns.sort(key=lambda r: json.dumps(r, sort_keys=True))
     pdump = os.path.join(ctx.tmp, "paths.ndjson")
     pres = tlc.run("PathNormMC", pn_cfg, env={"VERIF_DUMP": pdump}, timeout=1500)
     ctx.add_tlc(pres)
@@ -521,7 +621,9 @@ def run_check(ctx):
                        "through interrogate (quick: a fixed stratum, see select_lookup) and parse_file, histories through "
                        "parse_file, paths through the real Filename class in a real directory tree; non-trivial = the "
                        "header exists in >= 2 candidate directories / the history has >= 2 inclusions / the path denotes a "
-                       "file; distinct = distinct case record")
+                       "file; distinct = distinct case record; plus every ownership case (spelling of the command-line file x way the "
+                       "#include reaches it first x command-line order x cwd x protection), replayed through interrogate and "
+                       "read back through the database query interface")
 
     # ---- replay -------------------------------------------------------------------------------
     sel = select_lookup(lookups, tier)
@@ -529,10 +631,12 @@ def run_check(ctx):
     n_l, nt_l, ev_l = replay_lookup(ctx, sel, tier, roots)
     n_pf = replay_lookup_parse_file(ctx, sel, roots)
     n_o, ev_o = replay_once(ctx, onces)
+    n_w, ev_w = replay_own(ctx, owns)
     n_p, nt_p = replay_paths(ctx, paths)
-    ctx.cov["evaluations"] += n_l + n_pf + n_o + n_p
-    ctx.cov["traces_validated_against_impl"] += n_l + n_pf + n_o + n_p
-    ctx.cov["distinct_nontrivial"] = nt_l + sum(1 for r in onces if len(r["spelled"]) >= 2) + nt_p
+    ctx.cov["evaluations"] += n_l + n_pf + n_o + n_p + n_w
+    ctx.cov["traces_validated_against_impl"] += n_l + n_pf + n_o + n_p + n_w
+    ctx.cov["distinct_nontrivial"] = nt_l + sum(1 for r in onces if len(r["spelled"]) >= 2) + nt_p + n_w
+    ctx.notes["ownership_cases_replayed"] = n_w
     ctx.notes.update(lookup_cases_in_model=len(lookups), lookup_cases_replayed_interrogate=n_l,
                      lookup_cases_replayed_parse_file=n_pf, once_only_histories_replayed=n_o, paths_checked=n_p)
     for r in sel[7::max(1, len(sel) // 3)][:3]:
@@ -542,7 +646,7 @@ def run_check(ctx):
     ctx.sample(dict(kind="path", **paths[len(paths) // 2]))
 
     # ---- trace validation ---------------------------------------------------------------------
-    nval = validate(ctx, ev_l + ev_o)
+    nval = validate(ctx, ev_l + ev_o + ev_w)
     ctx.notes["hook_traces_validated"] = nval
     ctx.cov["traces_validated_against_impl"] += nval
     ctx.assumptions.append("'skipped with a warning' is observed at verbosity >= 2 (interrogate -v, parse_file), where the "
